@@ -200,6 +200,53 @@ def _replay_batch(model, workdir, seed):
     return bad
 
 
+def validate(tier, workdir, seed):
+    """Model validation: pinned sizes through the model (abstract filesystem) and through the unmodified package on
+    real files; the destination trees (paths and bytes) and the returned counts must agree."""
+    import random
+    from symx.abuf import concretize_buf
+    rnd = random.Random(seed + 1313)
+    runs, errs = 0, []
+    cases = [(1, "flat2", "flat", "none"), (1, "nested3", "two", "before"), (2, "flat2", "mirror", "none"), (3, "samedir2", "flat", "after"),
+             (2, "single", "deep", "none"), (1, "samename2", "mirror", "none"), (3, "nested3", "named-dir", "none")]
+    if tier == "quick":
+        cases = cases[:4]
+    P = 16384
+    real_listdir = os.listdir
+    for version, shape, layout, decoy in cases:
+        n = len(SHAPES[shape])
+        vals = {"s%d" % i: rnd.choice([1, P - 1, P, P + 1, 2 * P, rnd.randrange(1, 2 * P)]) for i in range(n)}
+        pin = cr.Pinned(vals)
+        fs, sizes, meta, expected = rw.build_world(pin, version, shape, P, 2, layout, decoy, order="sorted", lo=1 if shape == "single" else 0)
+        w = World(fs)
+        try:
+            count_m = w.mod("rebuild").Assembler(["/t/m.torrent"], rw.SEARCH[layout], "/dest").assemble_torrents()
+        except Exception as ex:  # noqa: BLE001
+            count_m = "EXC " + type(ex).__name__
+        files = {cr.fid_of(shape, r): refconc.content(cr.fid_of(shape, r), vals["s%d" % i], seed) for i, r in enumerate(SHAPES[shape])}
+        files[("decoy", 0)] = refconc.content(("decoy", 0), vals["s0"], seed)
+        files[("u", 0)] = b"u" * 123
+        model_tree = {p[len("/dest/"):]: concretize_buf(nd.content, files) for p, nd in fs.files.items() if p.startswith("/dest/")}
+        d = os.path.join(workdir, "val%d" % runs)
+        os.makedirs(d)
+        params = dict(version=version, shape=shape, P=P, layout=layout, decoy=decoy)
+        rw.conc_world(params, vals, d, seed)
+        os.listdir = lambda p=".": sorted(real_listdir(p))
+        try:
+            try:
+                count_r = rw.conc_rebuild(d, layout)
+            except Exception as ex:  # noqa: BLE001
+                count_r = "EXC " + type(ex).__name__
+        finally:
+            os.listdir = real_listdir
+        real_tree = {k: v[1] for k, v in refconc.snapshot(d + "/dest").items() if v[0] == "f"}
+        runs += 1
+        if model_tree != real_tree or count_m != count_r:
+            errs.append("model != real: v%d %s %s decoy=%s %r: model count %r files %r, real count %r files %r"
+                        % (version, shape, layout, decoy, vals, count_m, sorted(model_tree), count_r, sorted(real_tree)))
+    return runs, errs
+
+
 def canaries(tier):
     return [
         ("_map_pieces: file index not advanced when a file ends on a piece boundary", {"rebuild": [(
